@@ -2,6 +2,7 @@
 use super::csscommon::*;
 use crate::cfg::{parsed_style, render, render_lines, try_add_css, CfgSpec, Rend};
 use crate::cssgen::{self, canonical_css, sheet_to_css, Decl, Prop, Rule, Sheet, Styling, Variant};
+use super::fuzzsub::FuzzSub;
 use crate::engine::{EnumSub, PropSub, Property, Stats};
 use crate::gen::{self, Doc, G};
 use crate::util::{is_visible, short};
@@ -254,6 +255,7 @@ pub fn property() -> Property {
             EnumSub::new("regressions", false, |_| soup_regressions(), check_soup).boxed(),
             PropSub::new("soup", 40_000, 400_000, soup_case, check_soup).with_validity(|c| c.doc.valid()).boxed(),
             PropSub::new("variants", 24_000, 240_000, variant_case, check_variant).with_validity(|c| c.doc.valid() && styling_valid(&Styling { agent: c.sheet.clone(), ..Default::default() })).boxed(),
+            FuzzSub { name: "fuzz_css", target: "fuzz_css", props: &["C17", "C01"], seconds: 300 }.boxed(),
         ],
     }
 }
